@@ -186,7 +186,7 @@ Lemma eval_unfold e :
             bind (eval_kws (eval T O) kws) (fun kvs =>
             if o_callable O id
             then bind (emit (PCall id avs kvs)) (fun _ => of_opt (o_call O id avs kvs))
-            else bind (emit (PName id)) (fun _ => ret (o_name O id))))
+            else fail BadCall))          (* an allow-listed constant is not callable (since 2db6888) *)
           else fail Unsupported
       | _ => fail BadCall
       end
@@ -240,7 +240,7 @@ Proof.
     apply spec_bind; [apply spec_eval_kws; assumption|]. intros kvs.
     destruct (o_callable O id).
     + change 0 with (0 + 0). apply spec_bind; [apply spec_emit; exact Hid|]. intros _. apply spec_of_opt.
-    + change 0 with (0 + 0). apply spec_bind; [apply spec_emit; exact Hid|]. intros _. apply spec_ret.
+    + apply spec_fail.
   - unfold lookup. destruct (mem id (keys (t_functions T))) eqn:Hid.
     + change 0 with (0 + 0). apply spec_bind; [apply spec_emit; exact Hid|]. intros _. apply spec_ret.
     + destruct (String.eqb id "True"); [apply spec_ret|].
